@@ -288,8 +288,11 @@ func watcherEpochTest(p *P, r *R, rule string) {
 				if v, okb := fct.Cond.(*ssa.BinOp); okb && isLoadOf(v.X, "Session.epochID") && isLoadOf(v.Y, "Session.epochID") {
 					if relOn(fct.Cond, fct.Truth, func(x ssa.Value) bool { return x == v.X }, func(x ssa.Value) bool { return x == v.Y }) == "==" {
 						// one side is the session of the current table entry (sm.pools[id]), the other the watched pool's
+						// exactly one side is read from the pool table inside the lock region of this attempt (the
+						// current entry); the other is the pool the watcher has been watching since before the wait
+						rg := p.mutexRegion("SessionManager.RWMutex")
+						held, _ := p.heldBefore(w, rg, false)
 						fromTable := func(x ssa.Value) bool {
-							// x = load of (<pool>.Session()).epochID: is <pool> an element of the manager's pool table?
 							fa, okf := loadOfField(x)
 							if !okf {
 								return false
@@ -298,7 +301,11 @@ func watcherEpochTest(p *P, r *R, rule string) {
 							if !okc || p.calleeName(&c.Call) != "(*streamPool).Session" {
 								return false
 							}
-							return derivedFrom(c.Call.Args[0], func(y ssa.Value) bool { return isLoadOf(y, "SessionManager.pools") }, 6)
+							ld, okl := c.Call.Args[0].(*ssa.UnOp)
+							if !okl || !derivedFrom(ld, func(y ssa.Value) bool { return isLoadOf(y, "SessionManager.pools") }, 6) {
+								return false
+							}
+							return held[ld] && p.reachesWithout(pointOf(ld), rc, rg.Release, nil)
 						}
 						if fromTable(v.X) != fromTable(v.Y) {
 							ok = true
